@@ -283,27 +283,26 @@ void NTT_Goldilocks::reversePermutation(Goldilocks::Element *dst, Goldilocks::El
     }
     else
     {
-        if (extension <= 1)
+        assert(offset_cols == 0 && ncols == ncols_all); // single block
+        if (extension > 1)
         {
-            assert(offset_cols == 0 && ncols == ncols_all); // single block
-#pragma omp parallel for schedule(static)
-            for (u_int64_t i = 0; i < size; i++)
-            {
-                u_int64_t r = BR(i, domainSize);
-                u_int64_t offset_r = r * ncols;
-                u_int64_t offset_i = i * ncols;
-                if (r < i)
-                {
-                    Goldilocks::Element tmp[ncols];
-                    std::memcpy(&tmp[0], &src[offset_r], ncols * sizeof(Goldilocks::Element));
-                    std::memcpy(&dst[offset_r], &src[offset_i], ncols * sizeof(Goldilocks::Element));
-                    std::memcpy(&dst[offset_i], &tmp[0], ncols * sizeof(Goldilocks::Element));
-                }
-            }
+            // only the first size / extension rows are input, the rest is zero padding
+            u_int64_t nrows = size / extension;
+            Goldilocks::parSetZero(&dst[nrows * ncols], (size - nrows) * ncols, nThreads);
         }
-        else
+#pragma omp parallel for schedule(static)
+        for (u_int64_t i = 0; i < size; i++)
         {
-            assert(0); // Option not implemented yet
+            u_int64_t r = BR(i, domainSize);
+            u_int64_t offset_r = r * ncols;
+            u_int64_t offset_i = i * ncols;
+            if (r < i)
+            {
+                Goldilocks::Element tmp[ncols];
+                std::memcpy(&tmp[0], &src[offset_r], ncols * sizeof(Goldilocks::Element));
+                std::memcpy(&dst[offset_r], &src[offset_i], ncols * sizeof(Goldilocks::Element));
+                std::memcpy(&dst[offset_i], &tmp[0], ncols * sizeof(Goldilocks::Element));
+            }
         }
     }
 }
